@@ -16,7 +16,8 @@ RULE = (
     "0..5), CutShortTipBranch(threshold derived from the tree's own terminal-branch lengths), "
     "get_neurites / get_dendrites. Oracle: the survivor set computed by the parent-pointer reference "
     "model, compared through tags; all columns, parent relation and new->old mapping (list and dict "
-    "forms) checked per survivor. Non-trivial: n >= 5, the operation removes >= 1 and keeps >= 2 "
+    "forms, handed in empty or still holding an earlier call's mapping) checked per survivor; removal ids handed over "
+    "as list / tuple / set / ndarray / generator / iterator / chain. Non-trivial: n >= 5, the operation removes >= 1 and keeps >= 2 "
     "nodes, and some kept node has a removed child."
 )
 ASSUMPTIONS = [
@@ -39,11 +40,18 @@ def case_strategy(draw, tier):
     if op in ("get_subtree", "node_subtree"):
         case["start"] = draw(st.integers(0, n - 1))
         case["mapping"] = draw(st.sampled_from(["list", "dict", "none"]))
+        # the container handed in may already hold the mapping of an earlier call (any other start node)
+        case["prefill"] = draw(st.sampled_from([None, None, "call", "junk"]))
+        case["prev_start"] = draw(st.integers(0, n - 1))
     elif op == "to_subtree":
         k = draw(st.integers(0, min(n, 6)))
         case["removals"] = [draw(st.integers(0 if draw(st.integers(0, 9)) == 0 else min(1, n - 1), n - 1))
                             for _ in range(k)]
         case["mapping"] = draw(st.sampled_from(["list", "dict", "none"]))
+        case["prefill"] = draw(st.sampled_from([None, None, "call", "junk"]))
+        case["prev_start"] = draw(st.integers(0, n - 1))
+        # `removals` is documented as an iterable of ids: containers and one-shot iterators alike
+        case["removals_as"] = draw(st.sampled_from(["list", "tuple", "set", "ndarray", "generator", "iter", "chain"]))
     elif op in ("cut_enter", "cut_leave"):
         dens = draw(st.sampled_from([0.05, 0.15, 0.4]))
         case["flags"] = [draw(st.floats(0, 1)) < dens for _ in range(n)]
@@ -131,6 +139,45 @@ def _nontrivial(ctx, t, survivors):
         ctx.cls("nothing-removed")
 
 
+def _mapping_container(case, tree, ctx):
+    """A fresh list / dict, or one that an earlier call (or the caller) has already filled."""
+    from swcgeom.core import get_subtree
+
+    kind = case["mapping"]
+    if kind == "none":
+        return None
+    mp = [] if kind == "list" else {}
+    pre = case.get("prefill")
+    if pre == "call":
+        get_subtree(tree, case["prev_start"], out_mapping=mp)
+        ctx.cls("mapping:container-reused-from-an-earlier-call")
+    elif pre == "junk":
+        if kind == "list":
+            mp.extend([10 ** 6 + i for i in range(len(tree) + 3)])
+        else:
+            mp.update({i: -7 for i in range(len(tree) + 3)})
+        ctx.cls("mapping:container-prefilled")
+    return mp
+
+
+def _as_iterable(ids, how):
+    import itertools
+
+    if how == "tuple":
+        return tuple(ids)
+    if how == "set":
+        return set(ids)
+    if how == "ndarray":
+        return np.array(ids, dtype=np.int64)
+    if how == "generator":
+        return (i for i in ids)
+    if how == "iter":
+        return iter(list(ids))
+    if how == "chain":
+        return itertools.chain(ids[: len(ids) // 2], ids[len(ids) // 2:])
+    return list(ids)
+
+
 def run_case(case, ctx):
     from swcgeom.core import cut_tree, get_subtree, to_subtree
     from swcgeom.transforms import (CutAxonTree, CutByFurcationOrder, CutByType, CutDendriteTree,
@@ -155,7 +202,7 @@ def run_case(case, ctx):
 
     if op in ("get_subtree", "node_subtree"):
         s = case["start"]
-        mp = [] if case["mapping"] == "list" else {} if case["mapping"] == "dict" else None
+        mp = _mapping_container(case, tree, ctx)
         if op == "get_subtree":
             out = get_subtree(tree, s, out_mapping=mp)
         else:
@@ -165,8 +212,10 @@ def run_case(case, ctx):
         # a subtree keeps the start node's descendants: the start node is the new root
         _verify(ctx, t, out, surv, op, mapping=mp, new_root=s)
     elif op == "to_subtree":
-        mp = [] if case["mapping"] == "list" else {} if case["mapping"] == "dict" else None
-        out = to_subtree(tree, list(case["removals"]), out_mapping=mp)
+        mp = _mapping_container(case, tree, ctx)
+        how = case.get("removals_as", "list")
+        ctx.cls("removals-as:" + how)
+        out = to_subtree(tree, _as_iterable(list(case["removals"]), how), out_mapping=mp)
         surv = no_removed_ancestor(set(case["removals"]))
         _nontrivial(ctx, t, surv)
         _verify(ctx, t, out, surv, op, mapping=mp)
@@ -290,7 +339,9 @@ def run_case(case, ctx):
 
 
 SUBCHECKS = [
-    Sub("prune", case_strategy, run_case, quick=2600, thorough=40000, shards_quick=4,
+    Sub("prune", case_strategy, run_case, quick=6000, thorough=40000, shards_quick=4,
         required={**{"op:" + o: 60 for o in OPS}, "empty-result": 20, "type-absent": 10,
-                  "short_tip:removes": 20, "permuted": 200}),
+                  "short_tip:removes": 20, "permuted": 200,
+                  "mapping:container-reused-from-an-earlier-call": 30, "mapping:container-prefilled": 30,
+                  "removals-as:generator": 10, "removals-as:iter": 10, "removals-as:chain": 10, "removals-as:ndarray": 10}),
 ]
